@@ -39,12 +39,16 @@ STR_POOL = [
     ('Pipe 5\\"', "qe"), ('say \\"hi\\" now', "qe"), ('\\"start', "qe"),
     # line-break-like characters inside a value (str.splitlines() splits on all of them)
     ("cr\r\nlf inside", "m"), ("lone\rcr", "m"), ("vt\x0bff\x0cnel\x85ls\u2028ps\u2029end", "mn"),
+    # not in Unicode normal form C (decomposed accent, compatibility singletons)
+    ("e\u0301 de\u0301compose\u0301", "n"), ("\u212b and \u2126", "n"),
     ("ends with i", ""), ("i", ""), ("#not a colour", ""), ("0x1F", ""), ("1 2 3", ""), ("a  b", ""), ("NULL", ""),
 ]
 # contents that look like something else; only used where a check asks for them explicitly
 LOOKALIKE_POOL = [("(a)", "x"), ("/re/", "x"), ("{a,b}", "x"), ("[bind]", "x"), ("#FFF", "h")]
 
-INT_POOL = ["0", "1", "7", "42", "255", "+3", "-1", "-12", "007", "1000000", "10", "5", "123456789012", "-2147483649", "65536"]
+INT_POOL = ["0", "1", "7", "42", "255", "+3", "-1", "-12", "007", "1000000", "10", "5", "123456789012", "-2147483649", "65536",
+            # beyond the exact range of a double
+            "9007199254740993", "-9007199254740993", "123456789012345678901234567890"]
 FLOAT_POOL = ["0.5", "1.0", "-2.5", "4e2", "+3.25", "1e-3", "2.5E+3", "-0.25", "12.75", "100.0", "3.14159", "1.5e0",
               # precision and exponent boundary forms (Python prints 1e-05, 2e+16 for these)
               "-122.4194155", "37.7749295", "0.0000004", "1234567.891011", "0.00001", "-0.00002", "20000000000000000.0",
@@ -63,7 +67,8 @@ CHAR_POOL = ["x", "D", "\u00e9", "7", "\u00df", "\ufb01", "|"]
 ISTRING_POOL = ['"north"i', "'aitkin'i", '"Main St"i', "'x'i"]
 # list expressions: elements are kept verbatim (zero-padded codes, trailing zeros, signs, booleans, phrases)
 LIST_POOL = ["{a,b}", "{01,02,10}", "{1.50,2.00}", "{+3,-5}", "{TRUE,false}", "{A\u00e9rodrome,Base spatiale}", "{bla,d'apostrophe}", "{1e3,x_1}"]
-KVKEY_POOL = ["wms_title", "OWS_Enable_Request", "Qstring", "default_BASE", "wfs_SRS", "gml_Include_Items", "key-1", "a:b"]
+KVKEY_POOL = ["wms_title", "OWS_Enable_Request", "Qstring", "default_BASE", "wfs_SRS", "gml_Include_Items", "key-1", "a:b",
+              "wms_srs ", " Lead_Key", "two words"]
 CFGKEY_POOL = ["MS_ERRORFILE", "Proj_Lib", "ms_encryption_key", "ON_MISSING_DATA", "Cgi_Context_Url"]
 
 BARE_RE = re.compile(r"^[a-zA-Z_\xc0-\xff][a-zA-Z0-9_\xc0-\xff\-:]*$")
